@@ -301,6 +301,9 @@ func GetFingerprint(q string) string {
 					fmt.Println("Multi-line comment end")
 				}
 				s = unknown
+				// The comment is done: never copy it, whatever follows
+				// (a value after a comment triggers a copy of pending chars).
+				cpFromOffset = qi + 1
 			} else {
 				if Debug {
 					fmt.Println("Ignore multi-line comment content")
@@ -340,6 +343,10 @@ func GetFingerprint(q string) string {
 					fmt.Println("One-line comment end")
 				}
 				s = unknown
+				// Same as for multi-line comments: skip the comment for good
+				// and treat its newline as the previous (space) rune.
+				cpFromOffset = qi + 1
+				pr = r
 			}
 			continue
 		} else if isSpace(r) && isSpace(pr) {
@@ -437,6 +444,10 @@ func GetFingerprint(q string) string {
 					// so advance cpFromOffset to whatever is after the space
 					// and if it's more space then space skipping block will
 					// handle it.
+					cpFromOffset = qi + 1
+				} else if cpFromOffset == qi {
+					// Nothing but this space is pending (e.g. after a
+					// skipped comment): do not copy it later either.
 					cpFromOffset = qi + 1
 				}
 			} else if s == inDash {
